@@ -301,6 +301,12 @@ class History:
         d.update(kw)
         self.problems.append(d)
 
+    def outside(self, what, si, n):
+        self.stats["fault_free_failures_outside_c02"] = self.stats.get("fault_free_failures_outside_c02", 0) + 1
+        self.outside_notes = getattr(self, "outside_notes", [])
+        if len(self.outside_notes) < 2:
+            self.outside_notes.append("%s (history %s, options %s, session %d op %d)" % (what, self.tag, self.optname, si, n))
+
     def spec_map(self, batches):
         m = {}
         for b in batches:
@@ -624,11 +630,11 @@ class History:
             kept, prefix = self.canon_events(oevs)
             self.compare_trace(kept, [c for c in m[6:].split(" | ")[0].split(" ; ") if c], "open (session %d)" % si)
             self.probe_points(oevs, prefix, "during open of session %d" % si, list(self.acked), None, "open", si, kill_ctx)
+            fault_plan += self.plan_faults(si, "open", oevs, prefix)
             g = self.model.cmd("GO")
             if not g.startswith("DONE ok=1"):
                 self.problem("corr", "model open failed: " + g)
                 raise Problem()
-            fault_plan += [(si, "open", ev) for ev in oevs]
             # ---- operations
             for n, (kind, payload) in enumerate(items, start=1):
                 res = so.res.get(n)
@@ -647,24 +653,26 @@ class History:
                 self.stats["ops"] += 1
                 if kind == "w":
                     if res != "ok":
-                        self.problem("prop", "write failed in a fault-free history: %s" % res, replay={"options": self.optname, "history": ops_to_json(self.ops), "session": si, "op": n})
+                        self.outside("write failed in a fault-free history: %s" % res, si, n)
                         raise Problem()
                     self.stats["writes"] += 1
                     m = self.model.cmd("PEND W " + ",".join("%s=%s" % (hx(k), "~" if v is None else hx(v)) for k, v in payload))
                     kept, prefix = self.canon_events(oe)
                     self.compare_trace(kept, [c for c in m[6:].split(" ; ") if c], "write (session %d op %d)" % (si, n))
                     self.probe_points(oe, prefix, "during write %d of session %d" % (n, si), list(self.acked), payload, "write " + script[n - 1], si, kill_ctx)
+                    fault_plan += self.plan_faults(si, n, oe, prefix)
                     g = self.model_go("session %d op %d" % (si, n))
                     self.acked.append(payload)
                 elif kind == "flush":
                     if not res.startswith("ok"):
-                        self.problem("prop", "flush failed in a fault-free history: %s" % res, replay={"options": self.optname, "history": ops_to_json(self.ops), "session": si, "op": n})
+                        self.outside("flush failed in a fault-free history: %s" % res, si, n)
                         raise Problem()
                     self.stats["flushes"] += 1
                     m = self.model.cmd("PEND F")
                     kept, prefix = self.canon_events(oe)
                     self.compare_trace(kept, [c for c in m[6:].split(" | ")[0].split(" ; ") if c], "flush (session %d op %d)" % (si, n))
                     self.probe_points(oe, prefix, "during flush %d of session %d" % (n, si), list(self.acked), None, "flush", si, kill_ctx)
+                    fault_plan += self.plan_faults(si, n, oe, prefix)
                     g = self.model_go("session %d op %d" % (si, n))
                 elif kind == "compact":
                     t = res.split(" ")
@@ -673,8 +681,19 @@ class History:
                             self.problem("corr", "a compaction step that found nothing issued store calls")
                         continue
                     if t[0] != "ok":
-                        self.problem("prop", "compaction failed in a fault-free history: %s" % res, replay={"options": self.optname, "history": ops_to_json(self.ops), "session": si, "op": n})
-                        raise Problem()
+                        # not a statement about crashes: C01 ("no fault-free operation returns an error") /
+                        # C20 own the selector.  A step that failed before touching the directory is skipped
+                        # (what was acknowledged must still survive the exit and the reopen).
+                        if si >= 1:
+                            # after a reopen: the selector trips over a tree that recover.rs levelled badly
+                            # (find_best_compaction's assertion; the version mutex stays poisoned) = K2
+                            self.known.append(("K2", "a compaction step fails after a reopen whose recovered tree is not well-formed"))
+                            self.stats["k2_selector_failures"] = self.stats.get("k2_selector_failures", 0) + 1
+                        else:
+                            self.outside("compaction failed in a fault-free history: %s" % res, si, n)
+                        if oe:
+                            raise Problem()
+                        continue
                     inputs = t[6].split(",")
                     if len(inputs) == 1:
                         self.stats["moves"] += 1
@@ -706,13 +725,28 @@ class History:
                     kept, prefix = self.canon_events(oe)
                     self.compare_trace(kept, [c for c in m[6:].split(" ; ") if c], "compaction (session %d op %d)" % (si, n))
                     self.probe_points(oe, prefix, "during compaction %d of session %d" % (n, si), list(self.acked), None, "compact " + res[:60], si, kill_ctx)
+                    fault_plan += self.plan_faults(si, n, oe, prefix)
                     g = self.model_go("session %d op %d" % (si, n))
-                fault_plan += [(si, n, ev) for ev in oe]
             self.model.cmd("EXIT")
             # the process exited: everything written is there
             self.session_scripts = getattr(self, "session_scripts", []) + [(start_fs, script, items)]
         # ---- injected I/O errors
         self.fault_runs(fault_plan)
+
+    def plan_faults(self, si, opn, evs, prefix):
+        """candidate fault points of the pending operation; for a sample of them ask the model (whose
+        pending operation is this one) whether the injected error is returned"""
+        out = []
+        est = 4 * max(1, len(self.ops))
+        budget = 8 if self.tier == "quick" else 80
+        for r, ev in enumerate(evs):
+            pred = None
+            if prefix[r + 1] == prefix[r] + 1 and self.rng.below(est) < budget:
+                a = self.model.cmd("FQ %d" % prefix[r])
+                if a.startswith("FAULT err="):
+                    pred = a[10] == "1"
+            out.append((si, opn, ev, pred))
+        return out
 
     def model_go(self, where):
         g = self.model.cmd("GO")
@@ -744,9 +778,9 @@ class History:
     # ------------------------------------------------------------ faults
     def fault_runs(self, plan):
         for ff in self.forced_faults:
-            for si, opn, ev in plan:
+            for si, opn, ev, pred in plan:
                 if si == ff["session"] and ev.sys == ff["sys"] and ev.p1 == ff["path"] and ev.pk == ff["nth"]:
-                    self.fault_one(si, opn, ev, ff.get("errno", "EIO"))
+                    self.fault_one(si, opn, ev, ff.get("errno", "EIO"), pred)
                     break
             else:
                 self.problem("corr", "corpus fault not found in the recorded calls", fault=ff)
@@ -754,15 +788,17 @@ class History:
             return
         n = 2 if self.tier == "quick" else min(len(plan), 40)
         picks = []
+        with_pred = [c for c in plan if c[3] is not None]
         for _ in range(3 * n):
-            c = plan[self.rng.below(len(plan))]
+            pool = with_pred if with_pred and self.rng.chance(2, 3) else plan
+            c = pool[self.rng.below(len(pool))]
             if not self.other_thread_first(c[2], c[0], any_time=True) and len(picks) < n:
                 picks.append(c)
-        for si, opn, ev in picks:
+        for si, opn, ev, pred in picks:
             errno = "EIO" if self.rng.chance(1, 2) else "ENOSPC"
-            self.fault_one(si, opn, ev, errno)
+            self.fault_one(si, opn, ev, errno, pred)
 
-    def fault_one(self, si, opn, ev, errno):
+    def fault_one(self, si, opn, ev, errno, pred=None):
         """re-run session si from its starting directory with one injected error; the operation it
         hits must report it; afterwards the directory must reopen with acknowledged (+ unacknowledged
         but started) writes"""
@@ -783,6 +819,10 @@ class History:
         else:
             hit = so.res.get(opn)
             surfaced = hit is not None and (hit.startswith("err") or hit == "PANIC")
+        if pred is not None:
+            self.stats["faults_vs_model"] = self.stats.get("faults_vs_model", 0) + 1
+            if pred != surfaced:
+                self.problem("corr", "the model %s that the injected error is returned, the store %s" % ("predicts" if pred else "denies", "returned it" if surfaced else "did not"), fault=rp["injected"])
         if dropped_by_design:
             self.stats["faults_dropped_ok"] += 1
         elif not surfaced:
@@ -848,6 +888,7 @@ def ops_from_json(js):
 class Summary:
     def __init__(self, h):
         self.problems, self.known, self.stats = h.problems, h.known, h.stats
+        self.outside_notes = getattr(h, "outside_notes", [])
 
 
 def _job(args):
@@ -890,6 +931,8 @@ def torn_log_probe(exe, work):
 def run(chk):
     ok_proof, info = vlib.proof_stage(chk, PROPS, MODULE, const_areas=("Crash", "Lsm"), pins_rel="pins/C02.v")
     exe, mx = build()
+    _, head = vlib.sh(["git", "-C", vlib.REPO, "rev-parse", "--short", "HEAD"])
+    _, dirty = vlib.sh(["git", "-C", vlib.REPO, "status", "--porcelain", "--", "lsmtk", "sst", "mani"])
     rng = vlib.Rng(chk.seed * 1000003 + 2)
     n_hist = 30 if chk.tier == "quick" else 160
     jobs, names = [], []
@@ -922,6 +965,9 @@ def run(chk):
                     d[kk] = d.get(kk, 0) + vv
             else:
                 stats[k] = stats.get(k, 0) + v
+        for nt in r.outside_notes[:1]:
+            if len(chk.notes) < 4:
+                chk.notes.append("outside C02 (fault-free failure, reported to C01/C20): " + nt + " in " + name)
         if r.stats["flushes"] >= 1 and r.stats["probes"] >= 4:
             nontrivial.add(json.dumps(ops_to_json(ops))[:3000])
         for cls, what in r.known:
@@ -946,6 +992,7 @@ def run(chk):
         "samples": [ops_to_json(names[-1][2])[:10]],
         "input_distribution": stats,
         "histories": len(results),
+        "repo_head_at_build": head.strip(), "repo_uncommitted_at_build": [ln.strip() for ln in dirty.splitlines() if ln.strip()],
         "traces_validated_against_impl": stats.get("ops", 0) + stats.get("sessions", 0),
         "correspondence": "per operation: the strace-recorded mutating calls (create/write/fsync/link/rename/unlink/mkdir/rmdir) vs the calls of the extracted model, names unified; per crash point: entries recovered by the real store vs the model's prediction vs the acknowledgement record",
         "disagreements_impl_vs_model": len(corr_only), "disagreements_impl_vs_spec": reported,
